@@ -189,6 +189,7 @@ for how in ('literal', 'macro'):
             return {'self': iop, '_p': pr}
         c.setup(_setup)
         c.ensures('accept-or-message', 'result is True or (falsy(result) and errs() > old(errs()))')
+        c.ensures('no-message-when-accepted', 'result is True ==> errs() == old(errs())')
         c.ensures('one-value-per-positional-field-then-the-resolved-format',
                   "result is True ==> len(emitted(_p)) == %d and instr(emitted(_p)[-1], 'OUT', IoOp.PRINTF) and emitted(_p)[-1].param1 == %r and %s"
                   % (2 * npos + 1, fmt, ' and '.join(["is_seg(emitted(_p)[%d], 'value') and instr(emitted(_p)[%d], 'OUT', IoOp.REGISTER, Register.RESULT)" % (2 * i, 2 * i + 1)
